@@ -1235,6 +1235,10 @@ extern "C" {
             (void)dr_check(x->next);
             s->info.logical_edge_counts[dr_dag_edge_kind_create]++;
             s->info.logical_edge_counts[dr_dag_edge_kind_create_cont]++;
+            /* the child's last node -> the node after this section.
+               counted here (not by the enclosing node), so that the
+               count survives when this section alone is collapsed */
+            s->info.logical_edge_counts[dr_dag_edge_kind_end]++;
             s->info.n_child_create_tasks++;
             /* similar accumulation for x's child task */
             (void)dr_check(c);
@@ -1289,12 +1293,13 @@ extern "C" {
             break;
           }
           case dr_dag_node_kind_other: 
+            if (x->next) {
+              s->info.logical_edge_counts[dr_dag_edge_kind_other_cont]++;
+            }
             break;
           case dr_dag_node_kind_section:
             if (x->next) {
               s->info.logical_edge_counts[dr_dag_edge_kind_wait_cont]++;
-              s->info.logical_edge_counts[dr_dag_edge_kind_end] 
-                += x->info.n_child_create_tasks;
             }
             break;
           default:
